@@ -63,6 +63,7 @@ type env struct {
 	s       *hx.Suite
 	signer  *helpers.Signer
 	owner   *helpers.Signer // EOA with a delegation that approved every pool contract
+	owner2  *helpers.Signer // EOA with a tiny delegation and a large allowance for every pool contract
 	sink    common.Address  // receiver of share transfers
 	pool    []common.Address
 	poolIdx map[common.Address]int
@@ -101,6 +102,7 @@ func setup(t *testing.T, out *hx.Out) *env {
 		reqGas: map[string]uint64{}, writer: map[string]bool{}, poolIdx: map[common.Address]int{}}
 	e.signer = s.AddTestSigner(100_000)
 	e.owner = s.AddTestSigner(100_000)
+	e.owner2 = s.AddTestSigner(100_000)
 	e.sink = helpers.GenHexAddress()
 	for _, v := range s.ValAddr {
 		e.vals = append(e.vals, v.String())
@@ -128,8 +130,10 @@ func setup(t *testing.T, out *hx.Out) *env {
 		delegate(a.Bytes(), s.ValAddr[1], big18(1000))
 	}
 	delegate(e.owner.AccAddress(), s.ValAddr[0], big18(5000))
+	delegate(e.owner2.AccAddress(), s.ValAddr[0], big18(1))
 	for _, a := range e.pool {
 		s.App.StakingKeeper.SetAllowance(s.Ctx, s.ValAddr[0], e.owner.AccAddress(), a.Bytes(), big18(100).BigInt())
+		s.App.StakingKeeper.SetAllowance(s.Ctx, s.ValAddr[0], e.owner2.AccAddress(), a.Bytes(), big18(100).BigInt())
 	}
 	for _, a := range e.pool {
 		for k := 0; k < 2; k++ {
@@ -197,6 +201,7 @@ func setup(t *testing.T, out *hx.Out) *env {
 		delegate(ha.Bytes(), s.ValAddr[0], big18(1000))
 		delegate(ha.Bytes(), s.ValAddr[1], big18(1000))
 		s.App.StakingKeeper.SetAllowance(s.Ctx, s.ValAddr[0], e.owner.AccAddress(), ha.Bytes(), big18(100).BigInt())
+		s.App.StakingKeeper.SetAllowance(s.Ctx, s.ValAddr[0], e.owner2.AccAddress(), ha.Bytes(), big18(100).BigInt())
 		if err := evmx.Install(s.Ctx, s.App, ha, []byte{0}); err != nil {
 			out.Count("setup:hook-install-error:" + firstLine(err.Error()))
 			continue
@@ -744,9 +749,15 @@ func TestC09(t *testing.T) {
 	e.cnt = out.Count
 	nProg := hx.N(400, 2000)
 	debug := os.Getenv("VERIF_DEBUG") != ""
-	for pi := 0; pi < nProg; pi++ {
+	dir := e.directed(rand.New(rand.NewSource(seed ^ 0x5eed)))
+	for pi := 0; pi < nProg+len(dir); pi++ {
 		out.Reset()
-		p := e.genProgram(rng)
+		var p *program
+		if pi < len(dir) {
+			p = dir[pi]
+		} else {
+			p = e.genProgram(rng)
+		}
 		pctx, _ := e.s.Ctx.CacheContext()
 		if err := e.install(pctx, p); err != nil {
 			t.Fatal(err)
@@ -756,6 +767,15 @@ func TestC09(t *testing.T) {
 		for i, n := range frameNodes(p, amp.tr) {
 			if n.Op == "pre" {
 				out.Count(fmt.Sprintf("ample:%s:%s:%s:%s", p.meta[n.ID].variant, strings.SplitN(p.meta[n.ID].mode, ":", 2)[0], n.Kind, firstLine(amp.tr.Frames[i].Err)))
+			}
+		}
+		for i, n := range frameNodes(p, amp.tr) {
+			if n.Op == "pre" {
+				for j := amp.tr.Frames[i].Parent; j > 0; j = amp.tr.Frames[j].Parent {
+					if q, ok := frameNodes(p, amp.tr)[j]; ok && q.Op == "pre" {
+						out.Count("nested:precompile-call-inside-the-native-action-of:" + p.meta[q.ID].method + ":" + p.meta[n.ID].method)
+					}
+				}
 			}
 		}
 		if debug {
